@@ -1115,10 +1115,29 @@ def _resyncs_on_divergence(prog: Program) -> tuple[bool, str]:
         """a comprehension / generator whose element is `<x>.timestamp`"""
         return isinstance(e, (ast.SetComp, ast.ListComp, ast.GeneratorExp)) and isinstance(e.elt, ast.Attribute) and e.elt.attr == "timestamp"
 
+    def filled_with_timestamps(f: Flow, name: str, want_set: bool) -> bool:
+        """the local `name` starts empty and is only ever grown by `.add(<x>.timestamp)` (a set; `.append` for a list)"""
+        grow, other = 0, 0
+        for c in ast.walk(f.fn.node):
+            if isinstance(c, ast.Call) and isinstance(c.func, ast.Attribute) and isinstance(c.func.value, ast.Name) and c.func.value.id == name:
+                ok_m = c.func.attr == "add" or (not want_set and c.func.attr == "append")
+                if ok_m and len(c.args) == 1 and not c.keywords and isinstance(c.args[0], ast.Attribute) and c.args[0].attr == "timestamp":
+                    grow += 1
+                elif c.func.attr in ("add", "append", "update", "extend", "discard", "remove", "pop", "clear", "insert",
+                                     "difference_update", "intersection_update", "symmetric_difference_update"):
+                    other += 1
+        return grow > 0 and other == 0
+
     def ts_collection(f: Flow, e: ast.AST, nid: int, want_set: bool) -> bool:
         if ts_elems(e) and (isinstance(e, ast.SetComp) or not want_set):
             return True
         org = f.origin(e, nid)
+        if isinstance(e, ast.Name) and org and all(
+                q.kind == "expr" and ((isinstance(q.node, ast.Call) and u(q.node.func).split("[")[0] in (("set",) if want_set else ("set", "list"))
+                                       and not q.node.args and not q.node.keywords)
+                                      or (not want_set and isinstance(q.node, ast.List) and not q.node.elts)) for q in org) \
+                and filled_with_timestamps(f, e.id, want_set):
+            return True
         for q in org:
             x = q.node if q.kind == "expr" else None
             if isinstance(x, ast.SetComp) and ts_elems(x):
